@@ -685,6 +685,8 @@ func (e *Engine) specSort(name string, pkg *types.Package) (Sort, types.Type) {
 		return "(Array Bytes Bytes)", nil
 	case "IntBoolArr":
 		return "(Array Int Bool)", nil
+	case "IntIfaceArr":
+		return "(Array Int Iface)", nil
 	case "BytesBoolArr":
 		return "(Array Bytes Bool)", nil
 	case "BytesIntArr":
@@ -724,6 +726,29 @@ func (e *Engine) resolveType(name string, pkg *types.Package) types.Type {
 			return nil
 		}
 		return types.NewSlice(t)
+	}
+	if strings.HasPrefix(name, "map[") {
+		depth, end := 0, -1
+		for i := 3; i < len(name); i++ {
+			if name[i] == '[' {
+				depth++
+			} else if name[i] == ']' {
+				depth--
+				if depth == 0 {
+					end = i
+					break
+				}
+			}
+		}
+		if end < 0 {
+			return nil
+		}
+		k := e.resolveType(name[4:end], pkg)
+		v := e.resolveType(name[end+1:], pkg)
+		if k == nil || v == nil {
+			return nil
+		}
+		return types.NewMap(k, v)
 	}
 	switch name {
 	case "int":
@@ -1091,6 +1116,8 @@ func exprString(x ast.Expr) string {
 		return "[]" + exprString(x.Elt)
 	case *ast.ParenExpr:
 		return exprString(x.X)
+	case *ast.MapType:
+		return "map[" + exprString(x.Key) + "]" + exprString(x.Value)
 	}
 	return fmt.Sprintf("%T", x)
 }
